@@ -1062,6 +1062,33 @@ def run(ctx):
             g[k] = r.choice([g.attributes._d[k], list(g.attributes._d[k]) + ["zz"], "v"])
         elif y < 0.5:
             g.dialect = dict(g.dialect, **{"trailing semicolon": True})
+        elif y < 0.62:
+            # both objects are hashed first (as members of a set / keys of a dict would be), then g is changed THROUGH
+            # ITS attributes MAPPING, a value list or its extra list - not through g.<field> = ... or g[key] = ... :
+            # equality and hash must follow the printed line as it is now
+            hash(f); hash(g); {f: 1, g: 2}
+            how = r.choice(["mapping_set", "list_append", "mapping_del", "extra_append", "mapping_update", "undo"])
+            ks = list(g.attributes.keys())
+            if how == "mapping_set" or not ks:
+                g.attributes["added"] = ["1"]
+            elif how == "list_append":
+                g.attributes[r.choice(ks)].append("zz")
+            elif how == "mapping_del":
+                del g.attributes[r.choice(ks)]
+            elif how == "extra_append":
+                g.extra.append("x")
+            elif how == "mapping_update":
+                g.attributes.update({r.choice(ks): ["u"]})
+            else:
+                g.attributes["tmp"] = ["t"]
+                hash(g)
+                del g.attributes["tmp"]            # back to the line it printed before
+            if how != "undo":
+                try:
+                    f = feature_from_line(str(g))      # a fresh object that (normally) prints what g prints NOW
+                except Exception:
+                    pass
+            res.count("eq_hash_after_edit_through_mapping_" + how)
         res.evaluations += 1
         try:
             sf, sg = str(f), str(g)
@@ -1078,7 +1105,7 @@ def run(ctx):
             F.add("a set of two Features does not collapse exactly the equal ones", payload)
         res.count("pairs_equal" if sf == sg else "pairs_unequal")
         res.nontriv(("eq", sf, sg))
-        if y >= 0.5:     # unedited pairs of parsed lines: the model parses and prints both
+        if y >= 0.62:     # unedited pairs of parsed lines: the model parses and prints both
             corr("feq %s %s" % (enc(l1), enc(l2)), "ok %d %d" % (eq, ne), "Feature.__eq__/__ne__", repr((l1, l2)))
 
     # the stored JSON text follows in-place changes of a value list (no stale serialisation) -----------------------------
